@@ -269,9 +269,37 @@ fn c03_counts_and_printing(ctx: &mut Ctx) {
     }
 }
 
+/// One-key identifiers holding ONE scalar pattern of every kind and case flag, used through
+/// `all(A)`, `of(A, n)` and as quantified keys: evaluation returns on strings, arrays, numbers
+/// (under str()), NaN and absent fields — plain and optimised — and validate() returns too.
+fn c03_lone_under_quantifiers(ctx: &mut Ctx) {
+    let docs: Vec<Yaml> = ["{foo: barx}", "{foo: BARX}", "{foo: [xbar, 1, barx]}", "{foo: 12}", "{foo: .nan}", "{foo: 1.5}", "{foo: true}", "{foo: ~}", "{foo: {k: barx}}", "{foo: ''}", "{}"].iter().map(|t| serde_yaml::from_str::<Yaml>(t).unwrap()).collect();
+    for pat in ["ibar*", "bar*", "i*bar", "*bar", "i*bar*", "*bar*", "ibarx", "barx", "i?^bar", "?^bar", "'*'", "i''", "1*", "i1*", ".nan", "1.5", ">1.0", "12"] {
+        for key in ["foo", "str(foo)", "all(foo)", "of(foo, 1)", "not(foo)", "flt(foo)"] {
+            for cond in ["A", "all(A)", "of(A, 1)", "of(A, 2)", "not all(A)", "of(A, 0)"] {
+                let val = if pat.starts_with('\'') || pat.starts_with('.') || pat.parse::<f64>().is_ok() { pat.to_string() } else { format!("'{}'", pat) };
+                let text = format!("detection:\n  A:\n    {}: {}\n  condition: {}\ntrue_positives: []\ntrue_negatives:\n- foo: .nan\n- foo: [barx]\n", key, val, cond);
+                let value: Yaml = match serde_yaml::from_str(&text) { Ok(v) => v, Err(_) => continue };
+                let m = match value.as_mapping() { Some(m) => m, None => continue };
+                let det: Vec<(String, Yaml)> = m.get("detection").and_then(|d| d.as_mapping()).map(|m| m.iter().map(|(k, v)| (k.as_str().unwrap_or("").to_string(), v.clone())).collect()).unwrap_or_default();
+                let tns: Vec<Yaml> = m.get("true_negatives").and_then(|d| d.as_sequence()).cloned().unwrap_or_default();
+                let c = CaseReq { optimised: false, det, tps: vec![], tns, docs: docs.clone(), masks: vec![0, 15, 2, 8] };
+                let (ex, _p) = run_rule_case(ctx, &c, false);
+                if ex.imp.contains("PANIC") || ex.imp.starts_with("HANG") {
+                    ctx.violation("oracle", &format!("`{}: {}` under `{}` panics when evaluated: {}", key, val, cond, trunc(&ex.imp, 200)), &ex, &rule_yaml(&c), true);
+                } else if ex.imp.starts_with("load=ok") {
+                    ctx.check_agree(&ex, &rule_yaml(&c));
+                    ctx.nontrivial.insert(hash_str(&ex.line));
+                }
+            }
+        }
+    }
+}
+
 pub fn run_c03(ctx: &mut Ctx, _known: &Known) {
     run_implonly(ctx);
     c03_multibyte(ctx);
+    c03_lone_under_quantifiers(ctx);
     c03_counts_and_printing(ctx);
     // conditions that are a single bare value (no operator, identifier or quantifier): either a
     // load error or a rule that evaluates without panicking
@@ -792,6 +820,23 @@ pub fn run_c04(ctx: &mut Ctx, _known: &Known) {
             format!("---\nheader: 1\n---\n{}", good), format!("{}---\n{}", good, good), format!("{}...\nrest", good), "detection: {A: {foo: bar}, condition: A".into(),
             "- a\n- b: [".into(), "&a [*a]".into(), "? [\n".into(), "\u{feff}detection: x".into(), "%YAML 1.2\n---\nfoo".into(), "detection:\n  A: *nope\n  condition: A\n".into(),
         ];
+        // repeated keys at every level and position (serde's map protocol: a key whose value is
+        // not consumed derails the reader), with scalar / list / mapping values
+        for dupval in ["A and B", "not A", "A", "1", "~", "true", "''", "[a]", "{f: x}", "B"] {
+            for (k, ind) in [("condition", "  "), ("A", "  "), ("B", "  ")] {
+                let v = if dupval.starts_with('{') || dupval.starts_with('[') { dupval.to_string() } else { format!("{}", dupval) };
+                // last entry of the detection block
+                texts.push(format!("detection:\n  A:\n    foo: bar\n  B:\n    g: 1\n  condition: A\n{}{}: {}\ntrue_positives: []\ntrue_negatives: []\n", ind, k, v));
+                // last entry of the document
+                texts.push(format!("true_positives: []\ntrue_negatives: []\ndetection:\n  A:\n    foo: bar\n  B:\n    g: 1\n  condition: A\n{}{}: {}\n", ind, k, v));
+                // first entry
+                texts.push(format!("detection:\n{}{}: {}\n  A:\n    foo: bar\n  B:\n    g: 1\n  condition: A\ntrue_positives: []\ntrue_negatives: []\n", ind, k, v));
+            }
+            texts.push(format!("detection:\n  A:\n    foo: bar\n  condition: A\ntrue_positives: []\ntrue_negatives: []\ntrue_positives: {}\n", dupval));
+            texts.push(format!("detection:\n  A:\n    foo: bar\n  condition: A\ntrue_negatives: []\ntrue_positives: []\ndetection: {}\n", dupval));
+            texts.push(format!("optimised: {}\ndetection:\n  A:\n    foo: bar\n  condition: A\ntrue_negatives: []\ntrue_positives: []\noptimised: {}\n", dupval, dupval));
+            texts.push(format!("detection:\n  A:\n    foo: bar\n    foo: {}\n  condition: A\ntrue_negatives: []\ntrue_positives: []\n", dupval));
+        }
         let m = budget(ctx, 300, 5000);
         for i in 0..m {
             let mut r = case_rng(ctx, 3_000_000 + i);
